@@ -160,27 +160,34 @@ def replay(chk, e, n, key="lattice"):
             if not terms.close(gm[i, j].item(), want, rel=1e-12, abs_=nh * 2.1e-9 + 1e-11):
                 chk.violation(key + ":gamma-", dict(det, i=i, j=j, got=gm[i, j].item(), expected=mpmath.nstr(want, 17)))
                 return
-    physical(chk, st, sp, det, key)
+    physical(chk, st, sp, det, key, cancel=any(cancels(g) for row in e["G"] for g in row))
 
 
-def physical(chk, st, sp, det, key):
-    """necessary conditions on the code's own matrix: Hermitian, PSD, trace = normalisation"""
+def physical(chk, st, sp, det, key, cancel=False):
+    """necessary conditions on the code's own matrix: Hermitian, PSD, trace = normalisation.
+    Tolerances follow from the entry accuracy: every entry is accurate to `rel` relative to
+    sqrt(rho_ii rho_jj) <= trace, with rel = 1e-9 + (nh+na)*2.1e-9 (torch's softplus threshold: rho goes
+    through softplus for the hidden units and through an exact log for the auxiliary units, probability /
+    normalisation through softplus for both), 1e-7 where a factor 1+e^z cancels exactly; an eigenvalue
+    moves by at most N times that (Gershgorin)."""
     M = cplx.numpy(st.rho(sp, sp))
     tr = float(np.trace(M).real)
     chk.evaluations += 3
     if not np.isfinite(M).all() or tr <= 0 or tr > 1e290:
         chk.extra["unrepresentable"] = chk.extra.get("unrepresentable", 0) + 1
         return
+    N = M.shape[0]
+    rel = 1e-9 + (int(st.num_hidden) + int(st.num_aux)) * 2.1e-9 + (1e-7 if cancel else 0.0)
     if np.abs(M - M.conj().T).max() > 1e-12 * tr:
         chk.violation(key + ":not-hermitian", dict(det, asym=float(np.abs(M - M.conj().T).max()), trace=tr))
     w = np.linalg.eigvalsh((M + M.conj().T) / 2 / tr)
-    if w.min() < -1e-10:
-        chk.violation(key + ":not-psd", dict(det, min_eig_over_trace=float(w.min())))
+    if w.min() < -2 * N * rel:
+        chk.violation(key + ":not-psd", dict(det, min_eig_over_trace=float(w.min()), allowed=-2 * N * rel))
     z = st.normalization(sp).item()
-    if abs(tr - z) > 1e-9 * abs(z):
+    if abs(tr - z) > 2 * rel * abs(z):
         chk.violation(key + ":trace-vs-normalization", dict(det, trace=tr, normalization=z))
     p = st.probability(sp).numpy()
-    if np.abs(np.diag(M).real - p).max() > 1e-9 * tr:
+    if np.abs(np.diag(M).real - p).max() > 2 * rel * tr:
         chk.violation(key + ":diagonal-vs-probability", dict(det))
 
 
